@@ -310,7 +310,7 @@ pub fn factory_flow(rng: &mut Rng, sink: &mut Sink, w: &mut World, deployer: &[u
         let id = w.pend[i].0;
         let newtok = format!("MTK-{:06x}", rng.below(0xffffff));
         let ok = complete || rng.chance(3, 4);
-        let out = sink.exec(&if ok { format!("deliver {} ok {}", id, hex::encode(newtok.as_bytes())) } else { format!("deliver {} fail", id) });
+        let out = sink.exec(&if ok { format!("deliver {} ok {}", id, hex::encode(newtok.as_bytes())) } else { format!("deliver {} fail {}", id, crate::enc::fail_code(rng)) });
         w.pend[i].2 = true;
         if out.starts_with("ok") && w.next_tm > 0 {
             sink.exec(&format!("roles {} {} ESDTRoleLocalMint,ESDTRoleLocalBurn", hex::encode(tm_addr(w.next_tm - 1)), newtok));
@@ -384,7 +384,29 @@ fn inbound_source(rng: &mut Rng, payload: &[u8]) -> (Vec<u8>, Vec<u8>, Vec<u8>) 
     }
 }
 
+/// inbound link-token / deploy-token messages, otherwise valid, with the route drawn like that of transfers — half of
+/// the time straight (unwrapped) from the hub chain's trusted address, which no message type may use
+fn inbound_other_types(rng: &mut Rng, sink: &mut Sink, w: &mut World, caller: &[u8]) {
+    let tid = vec![rng.below(150) as u8 + 100; 32];
+    let inner = if rng.chance(1, 2) {
+        let (ty, tok) = *rng.pick(&[(2u8, TOK), (2, MB), (4, MB), (3, TOK), (1, MB)]);
+        link_payload(&tid, ty, b"0xSrcToken", tok.as_bytes(), &[])
+    } else {
+        deploy_payload(&tid, b"Remote Token", b"RTK", 6, &[])
+    };
+    let (chain, src, payload) = if rng.chance(1, 2) { (HUB.to_vec(), HUB_ITS.to_vec(), inner.clone()) } else { inbound_source(rng, &inner) };
+    let id = w.approve(rng, sink, &chain, &src, &payload, None);
+    w.execute(sink, caller, &chain, &id, &src, &payload, 0);
+    w.query(sink, "invalidTokenManagerAddress", &[tid]);
+    sink.exec(&format!("query {} isMessageExecuted {}", hex::encode(&w.gw.addr), args(&[chain.clone(), id.clone()])));
+}
+
 fn step(rng: &mut Rng, sink: &mut Sink, w: &mut World, focus: &str) {
+    if focus == "C13" && rng.chance(1, 10) {
+        let c = user(rng.below(6) as u8);
+        inbound_other_types(rng, sink, w, &c);
+        return;
+    }
     // weights: inbound no-data, inbound with data, outbound, deliver/cb, admin(pause/trusted/flow), registration, remote deploy / metadata, minter approvals, time
     let wts: [u64; 9] = match focus {
         "C04" => [45, 5, 10, 5, 10, 10, 0, 0, 15],
@@ -651,11 +673,11 @@ fn step(rng: &mut Rng, sink: &mut Sink, w: &mut World, focus: &str) {
                                 // the destination contract may return values
                                 format!("deliver {} ok {}", id, rng.pick(&["-", "-", "aa", "aa,bbcc"]))
                             } else {
-                                format!("deliver {} fail", id)
+                                format!("deliver {} fail {}", id, crate::enc::fail_code(rng))
                             }
                         }
                         PendK::Props => match rng.below(7) {
-                            0 => format!("deliver {} fail", id),
+                            0 => format!("deliver {} fail {}", id, crate::enc::fail_code(rng)),
                             1 => format!("deliver {} ok {}", id, props(b"NonFungibleESDT", b"NumDecimals-0")),
                             2 => format!("deliver {} ok {}", id, props(b"FungibleESDT", b"NumDec")), // malformed reply
                             3 => format!("deliver {} ok {}", id, args(&[b"Name".to_vec(), b"FungibleESDT".to_vec()])), // short reply
@@ -667,7 +689,7 @@ fn step(rng: &mut Rng, sink: &mut Sink, w: &mut World, focus: &str) {
                             if rng.chance(3, 4) {
                                 format!("deliver {} ok {}", id, hex::encode(newtok.as_bytes()))
                             } else {
-                                format!("deliver {} fail", id)
+                                format!("deliver {} fail {}", id, crate::enc::fail_code(rng))
                             }
                         }
                     };
@@ -900,7 +922,7 @@ fn step(rng: &mut Rng, sink: &mut Sink, w: &mut World, focus: &str) {
                         }
                         for id in order.iter() {
                             let newtok = format!("DTK-{:06x}", rng.below(0xffffff));
-                            let line = if rng.chance(2, 3) { format!("deliver {} ok {}", id, hex::encode(newtok.as_bytes())) } else { format!("deliver {} fail", id) };
+                            let line = if rng.chance(2, 3) { format!("deliver {} ok {}", id, hex::encode(newtok.as_bytes())) } else { format!("deliver {} fail {}", id, crate::enc::fail_code(rng)) };
                             sink.exec(&line);
                         }
                         if rng.chance(1, 2) {
@@ -993,6 +1015,15 @@ fn step(rng: &mut Rng, sink: &mut Sink, w: &mut World, focus: &str) {
                     } else {
                         w.approve(rng, sink, &chain, &src, &payload, None)
                     };
+                    if rng.chance(1, 5) {
+                        // somebody executes a DIFFERENT, well-formed deploy message under the approved id (same route and
+                        // source address): nothing is approved for that payload
+                        let tid2 = vec![rng.below(4) as u8 + 90; 32];
+                        let forged_inner = deploy_payload(&tid2, b"Forged Token", b"FTK", 6, &user(5));
+                        let forged = if payload == inner { forged_inner.clone() } else { hub_wrap(4, AVA, &forged_inner) };
+                        w.execute(sink, &user(5), &chain, &id, &src, &forged, 0);
+                        w.query(sink, "invalidTokenManagerAddress", &[tid2]);
+                    }
                     let out = w.execute(sink, &caller, &chain, &id, &src, &payload, 0);
                     let _ = out;
                     sink.exec(&format!("query {} isMessageExecuted {}", hex::encode(&w.gw.addr), args(&[chain.clone(), id.clone()])));
@@ -1113,7 +1144,7 @@ fn step(rng: &mut Rng, sink: &mut Sink, w: &mut World, focus: &str) {
                         }
                     }
                     let line = match rng.below(4) {
-                        0 => format!("deliver {} fail", id),
+                        0 => format!("deliver {} fail {}", id, crate::enc::fail_code(rng)),
                         1 => format!("deliver {} ok {}", id, props(b"NonFungibleESDT", b"NumDecimals-0")),
                         _ => format!("deliver {} ok {}", id, props(b"FungibleESDT", b"NumDecimals-18")),
                     };
@@ -1182,8 +1213,14 @@ fn step(rng: &mut Rng, sink: &mut Sink, w: &mut World, focus: &str) {
                 7..=10 => {
                     // directed: the current minter approves, the deployer uses the approval — with zero or one
                     // departure from the approved combination — then tries to use it a second time
-                    let fault = if rng.chance(1, 2) { 0 } else { rng.range(1, 9) };
+                    let fault = if rng.chance(1, 2) { 0 } else { rng.range(1, 10) };
                     let good_chain = rng.pick(&[ETH.to_vec(), AVA.to_vec()]).clone();
+                    // fault 9: a second trusted chain whose name differs from the approved one only in letter case
+                    let sibling = flip_case(&good_chain, rng.chance(1, 2));
+                    if fault == 9 {
+                        let owner = w.owner.clone();
+                        w.tx(sink, &owner, "setTrustedAddress", 0, "-", &[sibling.clone(), b"0xSiblingPeer".to_vec()]);
+                    }
                     let author = if fault == 1 { user(*rng.pick(&[2u8, 3, 5])) } else { user(4) };
                     let appr_chain = if fault == 2 { b"nowhere".to_vec() } else { good_chain.clone() };
                     w.tx(sink, &author, "approveDeployRemoteInterchainToken", 0, "-", &[user(1), salt.clone(), appr_chain, dm.clone()]);
@@ -1194,7 +1231,7 @@ fn step(rng: &mut Rng, sink: &mut Sink, w: &mut World, focus: &str) {
                         // somebody else "revokes": must not touch the author's approval
                         w.tx(sink, &user(5), "revokeDeployRemoteInterchainToken", 0, "-", &[user(1), salt.clone(), good_chain.clone()]);
                     }
-                    let use_chain = if fault == 5 { if good_chain == ETH.to_vec() { AVA.to_vec() } else { ETH.to_vec() } } else { good_chain.clone() };
+                    let use_chain = if fault == 5 { if good_chain == ETH.to_vec() { AVA.to_vec() } else { ETH.to_vec() } } else if fault == 9 { sibling.clone() } else { good_chain.clone() };
                     let use_dm = if fault == 6 { if dm == b"0xOther".to_vec() { b"0xRemoteMinter".to_vec() } else { b"0xOther".to_vec() } } else { dm.clone() };
                     let use_deployer = if fault == 7 { user(2) } else { user(1) };
                     let use_minter = if fault == 8 { user(5) } else { user(4) };
@@ -1221,7 +1258,7 @@ fn step(rng: &mut Rng, sink: &mut Sink, w: &mut World, focus: &str) {
                                 _ => {}
                             }
                             let line = match rng.below(4) {
-                                0 | 1 => format!("deliver {} fail", id),
+                                0 | 1 => format!("deliver {} fail {}", id, crate::enc::fail_code(rng)),
                                 2 => format!("deliver {} ok {}", id, props(b"NonFungibleESDT", b"NumDecimals-0")),
                                 _ => format!("deliver {} ok {}", id, props(b"FungibleESDT", b"NumDecimals-18")),
                             };
